@@ -224,6 +224,19 @@ def build_and_prove(ctx: Ctx, mod) -> bool:
     if unlocated:
         ok = False
         broken_stmts = broken_stmts + unlocated
+    # a flow listed under this property must be the subject of at least one theorem of its property file (otherwise the listing
+    # claims a tie that nothing checks)
+    try:
+        psrc = open(os.path.join(core.COQ, "Properties", ctx.prop + ".v")).read()
+    except OSError:
+        psrc = ""
+    import re as _re
+
+    for name, st in ctx.kernels.items():
+        if name.startswith("k_flow_") and ctx.prop in st.get("props", []) and not _re.search(r"\b" + _re.escape(name) + r"\b", psrc):
+            ok = False
+            broken_stmts = broken_stmts + [{"file": f"Properties/{ctx.prop}.v", "line": 0, "stmt": f"flow:{name}",
+                                            "msg": f"flow {name} is listed under {ctx.prop} but no theorem of Properties/{ctx.prop}.v mentions it"}]
     ctx.extra["broken_obligations"] = broken_stmts
     return ok
 
